@@ -326,7 +326,15 @@ trait Ext {
 
 impl Ext for DataValue {
     fn add(self, other: Self) -> Self {
-        if self.is_null() { other } else { self + other }
+        // NULL is the identity of the running aggregate: a NULL input leaves the state unchanged
+        // (`self + NULL` would be NULL and the next value would restart the sum)
+        if self.is_null() {
+            other
+        } else if other.is_null() {
+            self
+        } else {
+            self + other
+        }
     }
 
     fn or(self, other: Self) -> Self {
